@@ -54,13 +54,24 @@ def build(tier, seed):
         c.search_fn = c13.search
         return c
     _get_deps.__name__ = "get_deps"
+    def _wc(name):
+        def mk():
+            from contracts import calls
+            from bounded import c13
+            c = getattr(calls, name)(PROP)
+            c.search_fn = c13.search
+            return c
+        mk.__name__ = name
+        return mk
     tasks = [a_task(PROP, _get_deps),
              Task(f"{PROP}.S.deplist", PROP, "Project.correlate deplist", lambda: __import__("contracts.deps", fromlist=["x"]).deplist_obligations(PROP, lambda: __import__("bounded.c13", fromlist=["x"]).search())),
              Task(f"{PROP}.S.local_variables", PROP, "FortranType.correlate", lambda: graphsc.local_variables_obligations(PROP)),
              a_task(PROP, _w(graphsc.add_nested_nodes)),
              a_task(PROP, _w(graphsc.add_to_graph)), a_task(PROP, _w(graphsc.register)),
              Task(f"{PROP}.S.add_node", PROP, "add_node methods", _replay(graphsc.add_node_obligations)),
-             Task(f"{PROP}.S.adjacency", PROP, "node constructors", _replay(graphsc.adjacency_obligations)), bounded_task()]
+             Task(f"{PROP}.S.adjacency", PROP, "node constructors", _replay(graphsc.adjacency_obligations)),
+             Task(f"{PROP}.S.graph_false", PROP, "project-wide graphs", lambda: graphsc.project_graphs_respect_graph_false(PROP, lambda: __import__("bounded.c13", fromlist=["x"]).search())),
+             a_task(PROP, _wc("assoc_getitem")), a_task(PROP, _wc("assoc_contains")), bounded_task()]
     meta = {
         "trusted_base": TRUSTED_BASE,
         "assumptions": PYVC_ASSUMPTIONS + [
@@ -70,7 +81,8 @@ def build(tier, seed):
             "edge / adjacency obligations on add_node and the node constructors are syntactic (each edge site is guarded by the insertion of its far endpoint into the hop set; "
             "each adjacency insertion is paired with its inverse in the same block)",
         ],
-        "functions_under_contract": fn_meta([("ford.graphs", "FortranGraph.add_to_graph", None), ("ford.graphs", "GraphManager.register", None),
+        "functions_under_contract": fn_meta([("ford.sourceform", "Associations.__getitem__", "innermost ASSOCIATE batch wins: the call edge of `call item%draw()` depends on it"), ("ford.sourceform", "Associations.__contains__", None),
+                                             ("ford.graphs", "FortranGraph.add_to_graph", None), ("ford.graphs", "GraphManager.register", None),
                                              ("ford.fortran_project", "Project.correlate.get_deps", "nested function; the lists it feeds (deplist) are the edges of the file graphs")]) +
         [{"methods": "every add_node in ford/graphs.py (edge sites), every *Node.__init__ (adjacency registration)"}],
         "unverified_surroundings": ["get_call_nodes (recursion over visited/result sets)", "add_nodes / _add_nested_nodes recursion depth", "graphviz, DOT text, SVG", "that obj.uses / obj.calls are right (C06-C08)"],
